@@ -377,4 +377,43 @@ def source_order_check():
                 bad.append("%s: expected `%s` after the preceding accesses of the step table (order of shared accesses changed)" % (fn, rx))
                 break
             pos = m.end()
+    return bad + layout_check()
+
+
+DESC_WORDS = ("join_thread", "result", "lock", "status", "detached")
+
+
+def layout_check():
+    """the model treats the descriptor's join_thread / result / lock / status / detached as independent words, each
+    written under its own rule (detached and join_thread under the lock, status by the finisher).  That needs every one
+    of them to be a separately addressable member of struct myth_thread of the CURRENT tree: a bit-field shares its
+    memory location with its neighbours, so a locked update of one races with an unlocked update of the other (lost
+    `detached = 1`).  `offsetof` does not compile for a bit-field; the byte ranges are compared as well."""
+    d = os.path.join(vlib.BUILD, "desc_layout")
+    os.makedirs(d, exist_ok=True)
+    src = os.path.join(d, "layout.c")
+    with open(src, "w") as f:
+        f.write('#include <stddef.h>\n#include <stdio.h>\n#include "myth/myth.h"\n#include "myth_config.h"\n#include "myth_thread.h"\n'
+                "int main(void) {\n" +
+                "".join('  printf("%s %%zu %%zu\\n", offsetof(struct myth_thread, %s), sizeof(((struct myth_thread *)0)->%s));\n' % (w, w, w)
+                        for w in DESC_WORDS) + "  return 0;\n}\n")
+    exe = os.path.join(d, "layout")
+    rc, out = vlib.sh(["gcc"] + vlib.lib_cflags() + [src, "-o", exe], timeout=120)
+    if rc != 0:
+        msg = [l for l in out.split("\n") if "error" in l][:2]
+        return ["descriptor words are not separately addressable members of struct myth_thread (a bit-field shares its memory "
+                "location with its neighbours; the model and the lock discipline treat them as independent words): " + " / ".join(msg)]
+    rc, out = vlib.sh([exe], timeout=30)
+    rng = []
+    for l in out.split("\n"):
+        w = l.split()
+        if len(w) == 3:
+            rng.append((int(w[1]), int(w[1]) + int(w[2]), w[0]))
+    rng.sort()
+    bad = []
+    if len(rng) != len(DESC_WORDS):
+        bad.append("layout probe of struct myth_thread gave no result: " + out[-200:])
+    for (a0, a1, an), (b0, b1, bn) in zip(rng, rng[1:]):
+        if b0 < a1:
+            bad.append("descriptor words %s and %s overlap in struct myth_thread" % (an, bn))
     return bad
